@@ -43,14 +43,17 @@ def c03_close():
         try: ch2.send(1); bad.append("send after close did not raise")
         except OSError: pass
         ch2.waitclose(1)
-        # several concurrent receivers all see EOF
-        ch3 = gw.remote_exec("channel.send(1)")
+        # several receivers already BLOCKED when the peer closes: each of them must see EOF
+        ch3 = gw.remote_exec("channel.receive(); channel.send(1)")
         res = []
         def rcv():
-            try: res.append(ch3.receive(T))
+            try: res.append(ch3.receive(5))
             except EOFError: res.append("EOF")
-        ths = [threading.Thread(target=rcv) for _ in range(4)]; [t.start() for t in ths]; [t.join(T) for t in ths]
-        if sorted(map(str, res)) != ["1", "EOF", "EOF", "EOF"]: bad.append(f"concurrent receivers saw {res}")
+            except Exception as e: res.append(type(e).__name__)
+        ths = [threading.Thread(target=rcv) for _ in range(4)]; [t.start() for t in ths]
+        time.sleep(0.3); ch3.send(None)
+        [t.join(T) for t in ths]
+        if sorted(map(str, res)) != ["1", "EOF", "EOF", "EOF"]: bad.append(f"receivers blocked at close time saw {res}")
         return bad
     finally: g.terminate(2)
 
@@ -137,6 +140,19 @@ def c10_callback():
         except OSError: pass
         ch.send(None); ch.waitclose(T); time.sleep(0.2)
         if seen != [0, 1, 2, 3, 4, 5, "END"]: bad.append(f"callback saw {seen}")
+        # a backlog replayed by a slow callback while the peer keeps sending and then closes: still in send order, endmarker last
+        ctl = gw.remote_exec("c = channel.receive()\nfor i in range(3): c.send(i)\nchannel.send('queued'); channel.receive()\nfor i in range(3, 6): c.send(i)\nc.close()")
+        sub = gw.newchannel(); ctl.send(sub)
+        if ctl.receive(T) != "queued": bad.append("control handshake")
+        time.sleep(0.2)
+        seen3 = []
+        def slow(x):
+            if x == 0:
+                ctl.send("go"); time.sleep(0.8)
+            seen3.append(x)
+        sub.setcallback(slow, endmarker="END")
+        sub.waitclose(T); time.sleep(0.3)
+        if seen3 != [0, 1, 2, 3, 4, 5, "END"]: bad.append(f"slow backlog replay: callback saw {seen3}")
         ch2 = gw.remote_exec("channel.send(1)"); ch2.waitclose(T)
         s2 = []; ch2.setcallback(s2.append, endmarker="E")
         if s2 != [1, "E"]: bad.append(f"setcallback after close saw {s2}")
